@@ -113,6 +113,13 @@ Proof.
   replace ((0 <=? i) && (i <? rd_tracecount H)) with false by lia.
   destruct lo, hi; reflexivity.
 Qed.
+Lemma trace_2d_oob_window i lo hi ov : 0 <= i < rd_tracecount H -> ~ (0 <= lo < hi /\ hi <= rd_n_samples H) ->
+  rd_get_trace mask_nth H i (Some lo) (Some hi) ov = Raise IndexErr.
+Proof.
+  intros Hi O. unfold rd_get_trace. rewrite Is2.
+  replace ((0 <=? i) && (i <? rd_tracecount H)) with true by lia. cbn [negb]. cbv iota.
+  match goal with |- (if negb ?c then _ else _) = _ => replace c with false by lia end. reflexivity.
+Qed.
 Lemma subplane_oob a b c d :
   ~ (0 <= a < b /\ b <= rd_tracecount H /\ 0 <= c < d /\ d <= rd_n_samples H) ->
   rd_read_subplane H a b c d false = Raise IndexErr.
